@@ -190,3 +190,43 @@ def run(ck):
     ck.ob("C18-R4", "parseRaw/letters-matched-case-insensitively", not sens, "%s:%s" % (pr.file, sens[0][1].get("l")) if sens else pr.loc, pr,
           "no byte-for-byte comparison with a letter" if not sens else
           "the byte under the cursor is compared with the letter %r directly: the other capitalisation of that grammar token is no longer recognised" % chr(int(sens[0][1]["rconst"][2:])))
+
+    # who writes raw_: the text a media type was parsed from is stored by parseRaw (and the constructors) only.  toString() answers
+    # with raw_ whenever it is there, so anything else that fills it -- a memoised rendering -- freezes the string form while the
+    # object can still change
+    wr_raw = [(f2, e) for f2 in prog.library_funcs() for e in f2.events(("call", "assign", "init")) if
+              (e["k"] == "assign" and strip_tmpl((e.get("lhs") or {}).get("f") or "") == RAW) or
+              (e["k"] == "call" and e.get("op") in ("=", "+=") and strip_tmpl((e.get("recv") or {}).get("f") or "") == RAW) or
+              (e["k"] == "call" and strip_tmpl((e.get("recv") or {}).get("f") or "") == RAW and lib.is_stl_mutation(e))]
+    for f2, e in wr_raw:
+        okw = prog.owner(f2).base in (M + "MediaType::parseRaw",) or prog.owner(f2).d.get("ctor")
+        ck.ob("C18-R5", "raw_-written-only-by-parseRaw@%s" % prog.owner(f2).base.replace(M, ""), bool(okw), e.loc, f2,
+              "the parsed text is stored while parsing" if okw else
+              "%s writes MediaType::raw_: toString() returns raw_ when it is set, so from then on later changes of the object (quality, "
+              "parameters) no longer show in its string form" % prog.owner(f2).base.replace(M, ""))
+
+    # parameters are stored under the name and with the value that were parsed: nothing rewrites the key or the value between the token
+    # and the store (a folded name is not the name the text had; getParam() and toString() would not give it back)
+    stores_p = [e for e in pr.calls(lambda e: strip_tmpl((e.get("recv") or {}).get("f") or "") == M + "MediaType::params" and lib.is_stl_mutation(e) and lib.is_assoc_call(e))]
+    ck.require(stores_p, "store into MediaType::params not found in parseRaw")
+    for e in stores_p:
+        kv = set()
+        for a_ in e.get("args", []):
+            kv |= {r_[2:] for r_ in (a_.get("refs") or []) if r_.startswith("v:")} | ({a_["v"]} if a_.get("v") else set()) | ({a_["root"]} if a_.get("root") else set())
+            kv |= set(re.findall(r"[A-Za-z_]\w*", a_.get("t") or "")) & {d_["var"] for d_ in pr.events("decl") if d_.get("var")}
+        dpr2 = cfg.dominators(pr)
+        touched = []
+        for x in pr.events(("call", "assign")):
+            if x is e or not cfg.ev_dominates(dpr2, x, e):
+                continue
+            if x["k"] == "assign" and ((x.get("lhs") or {}).get("root") in kv or (x.get("lhs") or {}).get("v") in kv) and (x.get("lhs") or {}).get("t") not in kv:
+                touched.append(x)       # element store into the key / value
+            if x["k"] == "call" and strip_tmpl(x.get("callee") or "") in ("std::transform", "std::for_each", "std::replace", "std::reverse") and \
+                    any((a_.get("root") in kv) or any(v_ in (a_.get("t") or "") for v_ in kv) for a_ in x.get("args", [])):
+                touched.append(x)
+            if x["k"] == "call" and (x.get("recv") or {}).get("v") in kv and lib.is_stl_mutation(x) and x.get("op") not in ("=",):
+                touched.append(x)
+        ck.ob("C18-R5", "parseRaw/parameter-stored-as-parsed", not touched, (touched[0].loc if touched else e.loc), pr,
+              "key and value go from their tokens into params unchanged" if not touched else
+              "`%s` rewrites the parameter name / value before it is stored: the media type no longer has the parameter it was written with"
+              % (touched[0].get("t") or "")[:70])
